@@ -62,4 +62,19 @@ let run (_prefix : string) (cfg : config) (parts : string list) (_src : string)
               ("erase_diff_input", JS (trunc (sexp_string (at b parent)))) ]
           end
       | _, _ -> []) in
-  hooks @ classes @ directives @ erase_part
+  let sites_part =
+    on parts "sites" (fun () ->
+      match ast_in, ast_out with
+      | Some i, Some o ->
+          let sc = { sc_plus = plus_enabled cfg; sc_tpl = tpl_enabled cfg;
+                     sc_methods = List.map (fun m -> m.m_src) (List.filter (fun m -> not m.m_operator) cfg.c_methods);
+                     sc_lit_callers = cfg.c_lit_callers } in
+          let req = required_sites sc i in
+          let miss = missing_sites sc i o in
+          let js (s : site) = JO [ ("lo", JI (int_of_n (fst s.s_key))); ("hi", JI (int_of_n (snd s.s_key)));
+                                   ("what", JS (implode s.s_what)); ("class", JS (implode s.s_class)) ] in
+          [ ("required_sites", JI (List.length req));
+            ("required_sample", JL (List.map js (List.filteri (fun k _ -> k < 4) req)));
+            ("missing_sites", JL (List.map js miss)) ]
+      | _, _ -> []) in
+  hooks @ classes @ directives @ erase_part @ sites_part
